@@ -14,6 +14,7 @@
 (*   persist{n,ends}          store.append_tick returned                                              *)
 (*   status_write{...}        store.update_handler_status: idle stamp / idle cleared / terminal       *)
 (*   release_fire, release_done{released}   IdleReleaseDecorator._release_idle_handler                 *)
+(*   send_check               the service resolved the handler (not terminal) for a send still to come  *)
 (*   send_begin, ensure{active}, send_end   IdleReleaseExternalRunAdapter.send_event                   *)
 (*   loop_exit{gen}           the control loop task finished                                          *)
 (*   crash / restart{resumed, finalized} / launched      process stop and PersistenceDecorator start   *)
@@ -121,8 +122,12 @@ Line(e) ==
          IF ~(proc = "up" /\ e.gen \in loops /\ (e.gen = gen => (eng.ended # "none" \/ ~active))
               /\ (tw.on => (e.gen = gen /\ ~active)))
          THEN Fail("loop_exit_not_enabled") ELSE LoopExit(e.gen) /\ Ok /\ UNCHANGED relFlip
+    [] e.e = "send_check" ->
+         IF ~(proc = "up" /\ sendpc = "none" /\ row.exists /\ row.status = "running") THEN Fail("send_check_not_enabled")
+         ELSE SendCheck /\ Ok /\ UNCHANGED relFlip
     [] e.e = "send_begin" ->
-         IF ~(proc = "up" /\ LockFree /\ row.exists /\ row.status = "running") THEN Fail("send_not_enabled")
+         IF proc = "up" /\ sendpc = "checked" THEN SendLock /\ Ok /\ UNCHANGED relFlip
+         ELSE IF ~(proc = "up" /\ sendpc = "none" /\ row.exists /\ row.status = "running") THEN Fail("send_not_enabled")
          ELSE SendBegin /\ Ok /\ UNCHANGED relFlip
     [] e.e = "ensure" -> IF e.active # active THEN Fail("active_flag_differs") ELSE Skip
     [] e.e = "send_end" ->
